@@ -63,3 +63,23 @@ plan("C13", "c13.py", "type definitions x logged values x failing-serializer sub
      "logged value; _start/finish select the start/success/failure serializer. Bounded native driver as cross-check/replay.",
      "Trusted: Serializer interface model (arbitrary, possibly raising, non-idempotent functions that do not touch Eliot's objects), "
      "Destinations.send / write_traceback / log_message through their contracts, encoding assumptions. Known finding C13-F1 (MemoryLogger.validate).")
+
+plan("C02", "c02.py", "action constructs x exit kinds x destination-failure patterns x nestings x reserved-name collisions x concurrency modes, on the real code",
+     "Proof: TaskLevel arithmetic (child appends 1, next_sibling increments, no aliasing of level lists), Action._nextTaskLevel "
+     "(result == level ++ [POS+1], counter advances by exactly one), and the position effects of _start / log / child / finish / __exit__ / "
+     "start_action / startTask / log_message (start at 1, each message or child at the next position, end at n, failure reports only consume "
+     "positions of the *current* action, which __exit__ has already reset away from the finishing action); message shape (task_uuid, task_level, "
+     "float timestamp, type/status keys) from the dict postconditions. Run-wide uniqueness follows from the per-action counters plus uuid4 "
+     "freshness (lemma over the contracts, DESIGN 10-C02). Bounded native driver (incl. threads/asyncio interleavings) as cross-check/replay.",
+     "Trusted: uuid4 freshness, one owner thread per Action (documented), ILogger.write interface model, encoding assumptions. "
+     "Known finding C02-F1 (finish() inside the action's own context + a destination failing on the end message).")
+
+plan("C07", "c07.py", "15 action styles x 8 message APIs x traceback APIs x hostile values x raising serializers/extractors/destinations, on the real code",
+     "Proof: exception-freedom (raises=None, i.e. every raise path is infeasible or caught) of safeunicode, saferepr, _safe_unicode_dictionary, "
+     "Action._start / finish / log / child / addSuccessFields / __enter__ / __exit__, start_action, startTask, log_message, Logger.write, "
+     "Destinations.send, get_fields_for_exception, write_traceback, with opaque __str__/__repr__/serializers/extractors/destinations that may "
+     "raise on any call; run()/context() re-raise exactly the user code's exception object; termination measures on the send/log_message and "
+     "extractor/write_traceback cycles. Bounded native driver as cross-check/replay.",
+     "Trusted: API-legality preconditions (field names are str and not Eliot parameter names such as `self`; extractors return dicts whose keys are str "
+     "and avoid Eliot's reserved names; destinations raise Exception subclasses), library models (time.time, uuid4, format_exception, warnings.warn "
+     "do not raise), encoding assumptions. Known findings C07-F1..F4 (MemoryLogger.write formatting, stdlib bridge, exotic __module__).")
